@@ -967,6 +967,15 @@ func (st *wstate) runLifetime(i int, l *scen.Lifetime) {
 		st.cleanRewrote[p] = true
 	}
 	out.Stats.StateHashes = append(out.Stats.StateHashes, after.Hash())
+	for _, op := range rep.Ops {
+		if rep.CleanBegin > 0 && op.Seq > rep.CleanBegin && op.Fault {
+			// Clean walks its registries in Go map order, which no seed decides: where a fault
+			// stops it, the files it had already rewritten by then differ from execution to
+			// execution (DESIGN.md 5.8). The disk is not predicted from here on (MarkAllDirty above).
+			out.Stats.Trace = append(out.Stats.Trace, fmt.Sprintf("L%d %s", i, CleanFaultMark))
+			break
+		}
+	}
 	out.Stats.Trace = append(out.Stats.Trace, fmt.Sprintf("L%d disk %s", i, after.Hash()))
 }
 
@@ -1017,6 +1026,9 @@ func (st *wstate) preCorrupt(n int) {
 	st.out.Stats.Faults["storage:"+kind]++
 	st.out.Stats.Probes["fault_fired"]++
 }
+
+// CleanFaultMark: trace line after which an execution is no longer a function of the seed.
+const CleanFaultMark = "clean-hit-by-fault (map order decides what was rewritten before it stopped)"
 
 // LinkStore is where preLink keeps the files it replaces by symbolic links (never
 // compared: what counts is what the snapshot directories show).
